@@ -51,7 +51,7 @@ func reachClosure(c *Ctx, roots []*ssa.Function) []*ssa.Function {
 	}
 	var out []*ssa.Function
 	for fn := range seen {
-		if isShipped(c, fn) {
+		if isShipped(c, fn) || (c.withWrappers && fn.Synthetic != "") {
 			out = append(out, fn)
 		}
 	}
